@@ -270,6 +270,23 @@ def lcg_bimodal_scene(n, d, amp, seed, frac):
     return rows
 
 
+def regroup_scene(T1, gap, T2, lo2, a=11, m=37, W=400.):
+    """One ceilometer: a THICK deck (1000..1000+W ft, heights (i*a mod m) spread over it) for T1 steps, `gap` non-detections, then a
+    thin deck in its upper part (lo2..1400 ft) for T2 steps. The slicing stage cuts the heights in two overlapping slices; the grouping
+    stage re-clusters their hits in time, so that the groups inherit the slice ids but hold different hits (other okta classes)."""
+    rows = []
+    T = T1 + gap + T2
+    for i in range(T):
+        dt = 0.0 - 15. * (T - 1 - i)
+        if i < T1:
+            rows.append(['a', dt, 1000. + ((i * a) % m) * round(W / m), 1])
+        elif i < T1 + gap:
+            rows.append(['a', dt, None, 0])
+        else:
+            rows.append(['a', dt, lo2 + ((i * 5) % 13) * round((1400. - lo2) / 13), 1])
+    return rows
+
+
 WAIC = [(60, 250, 90, 9, 0.5), (60, 275, 120, 0, 0.5), (80, 250, 90, 2, 0.5)]
 W119 = [(40, 1, 300, 30, 11), (40, 3, 250, 30, 28), (60, 2, 250, 30, 29), (60, 2, 350, 30, 29), (40, 3, 350, 30, 28)]
 
@@ -296,6 +313,8 @@ def build(spec):
         return id_alloc_scene(spec['S'], spec.get('pos', 0))
     if g == 'lcgdeck':
         return lcg_deck_scene(*spec['args'])
+    if g == 'regroup':
+        return regroup_scene(*spec['args'])
     if g == 'lcgbimodal':
         return lcg_bimodal_scene(*spec['args'])
     if g == 'demo':
